@@ -26,7 +26,11 @@ func init() {
 }
 
 func c01Config(c run.Ctx) (gen.Config, *gen.Universe, []seq.Op) {
-	r := gen.Rng(c.Seed, propStream("C01"), uint64(c.Index))
+	prop := c.Prop
+	if prop == "" {
+		prop = "C01"
+	}
+	r := gen.Rng(c.Seed, propStream(prop), uint64(c.Index))
 	maxBits := uint8(20)
 	cfg := gen.PickConfig(r, false, r.IntN(4) != 0, maxBits)
 	if c.Index%240 == 77 {
